@@ -17,7 +17,7 @@
 
    Strings are byte lists.  Only definitions here. *)
 From Coq Require Import List ZArith Bool Lia.
-From TskVerif Require Import Base.Common.
+From TskVerif Require Import Base.Common Gen.Generated.
 Import ListNotations.
 Open Scope Z_scope.
 
@@ -203,7 +203,7 @@ Definition has_missing (g : list Z) : bool := existsb (fun a => a =? -1) g.
    as the previous site left it *)
 Definition write_site (contig : bytes) (idx : list Z) (gt : bytes) (site_id : Z) (s : site_data)
   : res (bytes * bytes) :=      (* (line, gt_array afterwards) *)
-  if 9 <? zlen (sd_alleles s) then Err E_VALUE else
+  if c16_max_alleles <? zlen (sd_alleles s) then Err E_VALUE else   (* `variant.num_alleles > 9`, regenerated *)
   do ref <- get (sd_alleles s) 0;
   let alt := match sd_alleles s with
              | _ :: (_ :: _) as rest => join_with COMMA rest
@@ -244,9 +244,14 @@ Definition vcf_body_with (select : list Z -> mask_arg -> res (list Z)) (inp : vc
   do '(gt, idx) <- gt_template (vi_ploidies inp);
   write_sites (vi_contig inp) idx gt 0 (vi_sites inp) mask.
 
-(* the code as it is, and with the one-word repair *)
+(* the code as it is at the pinned commit, and with the one-word repair *)
 Definition vcf_body : vcf_input -> res (list bytes) := vcf_body_with selected_positions_as_coded.
 Definition vcf_body_fixed : vcf_input -> res (list bytes) := vcf_body_with selected_positions_fixed.
+
+(* what /repo has now (regenerated fact): this is what the correspondence evaluates,
+   so that applying the repair to /repo needs no change here *)
+Definition vcf_body_current : vcf_input -> res (list bytes) :=
+  if c16_poszero_uses_raw_site_mask then vcf_body else vcf_body_fixed.
 
 (* ------------------------------------------------------------------ *)
 (* header facts                                                         *)
